@@ -116,6 +116,17 @@ class BStr(object):
         return BStr([tm.ite(in_range(c, 97, 122), tm.sub(c, I(32)), c) for c in self.chars], self.n)
 
     def replace(self, old, new, *rest):
+        if not rest and isinstance(old, str) and isinstance(new, str) and len(old) == 1 and new != '':
+            # general single-character replacement: concrete length, fork per character
+            a = self.fix_len()
+            ex = symx.cur()
+            out = []
+            for k in range(a.n.val):
+                if ex.decide(tm.eq(a.chars[k], I(ord(old)))):
+                    out.extend(I(ord(ch)) for ch in new)
+                else:
+                    out.append(a.chars[k])
+            return BStr(out or [I(0)], I(len(out)))
         if rest or not isinstance(old, str) or not isinstance(new, str) or len(old) != 1 or new != '':
             raise symx.Unsupported('replace(%r, %r)' % (old, new))
         o = ord(old)
